@@ -137,6 +137,9 @@ type ResReq struct {
 	TypeBits         uint32
 	RequiresDedicated bool
 	PrefersDedicated  bool
+	// IgnoreGranularity: the caller opted out of bufferImageGranularity handling for this resource
+	// (custom pool created with the ignore flag); the device does not report page sharing for it.
+	IgnoreGranularity bool
 }
 
 // Mem is a simulated VkDeviceMemory.
@@ -725,6 +728,14 @@ func (d *Device) DestroyResource(id int, image bool) {
 	d.record(c)
 }
 
+// ForgetBinding marks a resource's binding as dangling (the harness freed the memory range it was bound
+// to without destroying the resource first, which is the caller's business, not the allocator's).
+func (d *Device) ForgetBinding(id int) {
+	if r := d.ResByID(id); r != nil {
+		r.bound.Store(0)
+	}
+}
+
 // Requirements simulates vkGet{Buffer,Image}MemoryRequirements.
 func (d *Device) Requirements(id int, image bool) ResReq {
 	ck := CallBufferReqs
@@ -789,7 +800,7 @@ func (d *Device) Bind(resID, memID, offset int, image bool) int {
 	// bufferImageGranularity: linear and non-linear resources must not share a page
 	if g := d.Cfg.Granularity; g > 1 && offset >= 0 {
 		for _, o := range d.LiveRes() {
-			if o.ID == resID || !o.Bound() || o.BoundTo != memID || o.Kind.Linear() == r.Kind.Linear() {
+			if o.ID == resID || !o.Bound() || o.BoundTo != memID || o.Kind.Linear() == r.Kind.Linear() || o.Req.IgnoreGranularity || r.Req.IgnoreGranularity {
 				continue
 			}
 			if pagesOverlap(offset, r.Req.Size, o.BoundAt, o.Req.Size, g) {
